@@ -212,20 +212,24 @@ theorem hasPrefix_eq_of_length (p a b : Path) (ha : hasPrefix p a = true) (hb : 
         simp only [List.length_cons, Nat.add_right_cancel_iff] at hl
         rw [← ha.1, ← hb.1, ih ys zs ha.2 hb.2 hl]
 
+theorem mountMatches_hasPrefix {path k : Path} (h : mountMatches path k = true) : hasPrefix path k = true := by
+  simp only [mountMatches, Bool.and_eq_true] at h
+  exact h.1
+
 def relOf (path m : Path) : Path :=
   let rel := trimPrefix path m
   if rel.isEmpty then [47] else rel
 
 /-- what `findMount`'s loop computes, independent of the visiting order -/
 def IsBest (path : Path) (cands : List Path) (m : Path) : Prop :=
-  m ∈ cands ∧ hasPrefix path m = true ∧ ∀ k ∈ cands, hasPrefix path k = true → k.length ≤ m.length
+  m ∈ cands ∧ mountMatches path m = true ∧ ∀ k ∈ cands, mountMatches path k = true → k.length ≤ m.length
 
 theorem findMountLoop_spec (path : Path) (ks : List Path) (best : Option Path)
-    (hbest : ∀ m, best = some m → hasPrefix path m = true ∧ m ≠ path) :
+    (hbest : ∀ m, best = some m → mountMatches path m = true ∧ m ≠ path) :
     (path ∈ ks → findMountLoop path ks best = some (path, [47])) ∧
     (path ∉ ks →
       (∀ m, IsBest path (best.toList ++ ks) m → findMountLoop path ks best = some (m, relOf path m)) ∧
-      ((∀ k ∈ best.toList ++ ks, hasPrefix path k = false) → findMountLoop path ks best = none)) := by
+      ((∀ k ∈ best.toList ++ ks, mountMatches path k = false) → findMountLoop path ks best = none)) := by
   induction ks generalizing best with
   | nil =>
     refine ⟨by simp, fun _ => ⟨?_, ?_⟩⟩
@@ -269,7 +273,7 @@ theorem findMountLoop_spec (path : Path) (ks : List Path) (best : Option Path)
       · intro m hm
         unfold findMountLoop
         simp only [hk, ↓reduceIte]
-        by_cases hpk : hasPrefix path k = true
+        by_cases hpk : mountMatches path k = true
         · simp only [hpk, ↓reduceIte]
           cases best with
           | none =>
@@ -304,7 +308,7 @@ theorem findMountLoop_spec (path : Path) (ks : List Path) (best : Option Path)
                 · simp
                 · -- m = k: then b is at most as long as k and k at most as long as b
                   have h1 := hm3 b (by simp) hb.1
-                  have : m = b := hasPrefix_eq_of_length path m b hm2 hb.1 (by omega)
+                  have : m = b := hasPrefix_eq_of_length path m b (mountMatches_hasPrefix hm2) (mountMatches_hasPrefix hb.1) (by omega)
                   simp [this]
                 · simp [h]
               · intro x hx hxp
@@ -313,7 +317,7 @@ theorem findMountLoop_spec (path : Path) (ks : List Path) (best : Option Path)
                   rcases hx with rfl | h
                   · simp
                   · simp [h]) hxp
-        · have hpk' : hasPrefix path k = false := by simpa using hpk
+        · have hpk' : mountMatches path k = false := by simpa using hpk
           simp only [hpk', Bool.false_eq_true, ↓reduceIte]
           apply ((ih best hbest).2 hnot.2).1
           obtain ⟨hm1, hm2, hm3⟩ := hm
@@ -332,7 +336,7 @@ theorem findMountLoop_spec (path : Path) (ks : List Path) (best : Option Path)
       · intro hall
         unfold findMountLoop
         simp only [hk, ↓reduceIte]
-        have hpk : hasPrefix path k = false := hall k (by simp)
+        have hpk : mountMatches path k = false := hall k (by simp)
         simp only [hpk, Bool.false_eq_true, ↓reduceIte]
         apply ((ih best hbest).2 hnot.2).2
         intro x hx
@@ -349,14 +353,14 @@ theorem IsBest_unique (path : Path) (c1 c2 : List Path) (hperm : ∀ x, x ∈ c1
   obtain ⟨b1, b2, b3⟩ := h2
   have := a3 m2 ((hperm m2).2 b1) b2
   have := b3 m1 ((hperm m1).1 a1) a2
-  exact hasPrefix_eq_of_length path m1 m2 a2 b2 (by omega)
+  exact hasPrefix_eq_of_length path m1 m2 (mountMatches_hasPrefix a2) (mountMatches_hasPrefix b2) (by omega)
 
 theorem exists_best (path : Path) (cands : List Path) :
-    (∃ m, IsBest path cands m) ∨ (∀ k ∈ cands, hasPrefix path k = false) := by
+    (∃ m, IsBest path cands m) ∨ (∀ k ∈ cands, mountMatches path k = false) := by
   induction cands with
   | nil => right; simp
   | cons c cs ih =>
-    by_cases hc : hasPrefix path c = true
+    by_cases hc : mountMatches path c = true
     · left
       rcases ih with ⟨m, hm1, hm2, hm3⟩ | hnone
       · by_cases hl : m.length < c.length
@@ -378,7 +382,7 @@ theorem exists_best (path : Path) (cands : List Path) :
         rcases hk with rfl | hk
         · omega
         · rw [hnone k hk] at hkp; cases hkp
-    · have hc' : hasPrefix path c = false := by simpa using hc
+    · have hc' : mountMatches path c = false := by simpa using hc
       rcases ih with ⟨m, hm1, hm2, hm3⟩ | hnone
       · left
         refine ⟨m, by simp [hm1], hm2, ?_⟩
@@ -420,7 +424,7 @@ theorem findMount_order_independent (m1 m2 : List Path) (hperm : ∀ x, x ∈ m1
     cleaned path, and the relative path is the remainder (or `/`) -/
 theorem findMount_string_prefix (mounts : List Path) (cwd p m rel : Path)
     (h : findMount mounts cwd p = some (m, rel)) :
-    m ∈ mounts ∧ hasPrefix (mountKeyPath cwd p) m = true := by
+    m ∈ mounts ∧ (m = mountKeyPath cwd p ∨ mountMatches (mountKeyPath cwd p) m = true) := by
   unfold findMount at h
   generalize mountKeyPath cwd p = path at h
   have s := findMountLoop_spec path mounts none (by simp)
@@ -428,44 +432,102 @@ theorem findMount_string_prefix (mounts : List Path) (cwd p m rel : Path)
   · rw [s.1 hin] at h
     simp only [Option.some.injEq, Prod.mk.injEq] at h
     rw [← h.1]
-    exact ⟨hin, by simpa using hasPrefix_append path []⟩
+    exact ⟨hin, Or.inl rfl⟩
   · have t := s.2 hin
     simp only [Option.toList_none, List.nil_append] at t
     rcases exists_best path mounts with ⟨b, hb⟩ | hnone
     · rw [t.1 b hb] at h
       simp only [Option.some.injEq, Prod.mk.injEq] at h
-      rw [← h.1]; exact ⟨hb.1, hb.2.1⟩
+      rw [← h.1]; exact ⟨hb.1, Or.inr hb.2.1⟩
     · rw [t.2 hnone] at h; cases h
 
-/-- The full statement of the mount half of the property: the chosen mount is a
-    component-wise prefix of the requested path. -/
-def C13_full_mounts : Prop :=
-  ∀ (mounts : List Path) (cwd p m rel : Path),
-    findMount mounts cwd p = some (m, rel) → isCompPrefix (comps m) (comps (mountKeyPath cwd p)) = true
+theorem hasPrefix_split {p k : Path} (h : hasPrefix p k = true) : ∃ s, p = k ++ s := by
+  induction k generalizing p with
+  | nil => exact ⟨p, rfl⟩
+  | cons x xs ih =>
+    cases p with
+    | nil => simp [hasPrefix] at h
+    | cons y ys =>
+      simp only [hasPrefix, Bool.and_eq_true, beq_iff_eq] at h
+      obtain ⟨s, hs⟩ := ih h.2
+      exact ⟨s, by rw [h.1, hs]; rfl⟩
 
-/-- mount `/tmp`, path `/tmpfoo/x` -/
-def cexMounts : List Path := [[47, 116, 109, 112]]
-def cexPath : Path := [47, 116, 109, 112, 102, 111, 111, 47, 120]
+theorem isCompPrefix_append (a b : List Path) : isCompPrefix a (a ++ b) = true := by
+  induction a with
+  | nil => cases b <;> rfl
+  | cons x xs ih => simp [isCompPrefix, ih]
 
-/-- the unchanged code violates it: `/tmpfoo/x` is served by the mount `/tmp` as `foo/x` -/
-theorem C13_counterexample_string_prefix : ¬ C13_full_mounts := by
-  intro h
-  have := h cexMounts [47] cexPath [47, 116, 109, 112] [102, 111, 111, 47, 120] (by decide)
-  revert this
-  decide
+theorem comps_append_sep (a b : Path) : comps (a ++ 47 :: b) = comps a ++ comps b := by
+  simp [comps, split_append_sep, List.filter_append]
 
-theorem C13_counterexample_guard : stringPrefixOnly cexMounts [47] cexPath = true := by decide
+theorem split_snoc_sep (a : Path) : split (a ++ [47]) = split a ++ [[]] := by
+  have := split_append_sep a []
+  simpa [split] using this
 
-/-- partial statement: outside the guard `stringPrefixOnly` the chosen mount is a
-    component-wise prefix (the guard is exactly the negation, so this is the definition
-    unfolded; what makes it useful is that the correspondence check evaluates the guard on
-    the real code's answers). -/
-theorem C13_partial_mounts (mounts : List Path) (cwd p m rel : Path)
-    (hg : stringPrefixOnly mounts cwd p = false)
+theorem getLast_eq_snoc {k : Path} (h : k.getLast? = some 47) : ∃ k', k = k' ++ [47] := by
+  induction k with
+  | nil => simp at h
+  | cons x xs ih =>
+    cases xs with
+    | nil => simp at h; exact ⟨[], by simp [h]⟩
+    | cons y ys =>
+      have : (y :: ys).getLast? = some 47 := by simpa [List.getLast?_cons_cons] using h
+      obtain ⟨k', hk'⟩ := ih this
+      exact ⟨x :: k', by rw [hk']; rfl⟩
+
+/-- a mount point that matches at a component boundary is a component-wise prefix -/
+theorem mountMatches_compPrefix {path k : Path} (h : mountMatches path k = true) :
+    isCompPrefix (comps k) (comps path) = true := by
+  simp only [mountMatches, Bool.and_eq_true, Bool.or_eq_true, beq_iff_eq] at h
+  obtain ⟨hp, hb⟩ := h
+  obtain ⟨s, rfl⟩ := hasPrefix_split hp
+  rcases hb with hb | hb
+  · -- the mount point ends with '/'
+    obtain ⟨k', rfl⟩ := getLast_eq_snoc (by simpa [hasSuffixSlash] using hb)
+    have h1 : comps (k' ++ [47]) = comps k' := by simp [comps, split_snoc_sep, List.filter_append]
+    have h2 : comps (k' ++ [47] ++ s) = comps k' ++ comps s := by
+      have e : k' ++ [47] ++ s = k' ++ 47 :: s := by simp
+      rw [e]; exact comps_append_sep k' s
+    rw [h1, h2]
+    exact isCompPrefix_append _ _
+  · -- the byte after the mount point is '/'
+    cases s with
+    | nil => simp at hb
+    | cons c cs =>
+      have : c = 47 := by simpa using hb
+      subst this
+      rw [comps_append_sep]
+      exact isCompPrefix_append _ _
+
+theorem comps_self_prefix (p : Path) : isCompPrefix (comps p) (comps p) = true := by
+  have := isCompPrefix_append (comps p) []
+  simpa using this
+
+/-- **Mounts are selected at component boundaries** (holds since the `fix:` commit in
+    os/virtual.go; before it `/tmpfoo/x` was served by the mount `/tmp` as `foo/x`): for every
+    mount table, working directory and path string, the mount that serves the path is a
+    component-wise prefix of the (cleaned) path. -/
+theorem C13_mounts_component_prefix (mounts : List Path) (cwd p m rel : Path)
     (h : findMount mounts cwd p = some (m, rel)) :
     isCompPrefix (comps m) (comps (mountKeyPath cwd p)) = true := by
-  simp only [stringPrefixOnly, h] at hg
-  simpa using hg
+  rcases (findMount_string_prefix mounts cwd p m rel h).2 with he | hm
+  · rw [he]; exact comps_self_prefix _
+  · exact mountMatches_compPrefix hm
+
+/-- the old defect's guard is false on every answer of the repaired code -/
+theorem C13_stringPrefixOnly_never (mounts : List Path) (cwd p : Path) :
+    stringPrefixOnly mounts cwd p = false := by
+  unfold stringPrefixOnly
+  cases h : findMount mounts cwd p with
+  | none => rfl
+  | some mr =>
+    obtain ⟨m, rel⟩ := mr
+    simp [C13_mounts_component_prefix mounts cwd p m rel h]
+
+/-- mount `/tmp`, path `/tmpfoo/x`: no longer served by `/tmp` -/
+def cexMounts : List Path := [[47, 116, 109, 112]]
+def cexPath : Path := [47, 116, 109, 112, 102, 111, 111, 47, 120]
+theorem C13_former_counterexample_refused : findMount cexMounts [47] cexPath = none := by decide
 
 /-! ### Non-vacuity: concrete inputs satisfying the hypotheses -/
 
